@@ -22,8 +22,9 @@ META = {
             "rayon/lock/RefCell/Arc/interner site (incl. the text of the three transliterated code regions) and by "
             "running a sequential and a rayon build on generated UFOs under RAYON_NUM_THREADS in {1,2,3,4,8,16} x "
             "repetitions, comparing full font dumps and saved-tree hashes, and both with the model's prediction.",
-    "note": "Not modelled: rayon's scheduler/work stealing, OS threads, lock poisoning, memory ordering, non-atomic "
-            "file writes; these are only exercised by the differential runs (which observe few interleavings).",
+    "note": "Not modelled: rayon's scheduler/work stealing, OS threads, lock poisoning, memory ordering; these are "
+            "only exercised by the differential runs (which observe few interleavings). File writes are modelled both "
+            "as atomic and as truncate-then-write steps.",
 }
 COQ_TARGETS = ["Props/C19.vo", "Run/C19.vo", "Model/SitesPar.vo"]
 PROPS_FILES = ["C19"]
@@ -36,8 +37,8 @@ TRUSTED = [
 ]
 ASSUMPTIONS = [
     "each task is a logical thread; a rayon worker running tasks back to back is a schedule that does not interleave them",
-    "a glif write is one atomic step of the model; on pairwise distinct paths the two halves (truncate, write) of "
-    "different tasks touch different files",
+    "a glif write is one step (par_save) or two steps truncate/write (par_save2, trees compared by look-up); "
+    "partial writes of the byte stream itself are not modelled",
     "contents keys are pairwise distinct (BTreeMap) - hypothesis NoDup (keys_of ts) of the load theorems",
 ]
 THREADS = [1, 2, 3, 4, 8, 16]
